@@ -78,6 +78,13 @@ def run(chk, tier):
             elif not any(j in after for j, _, _ in rr):
                 chk.bad("R12.1", "pop|program hit", "a found program is not evaluated by run_raw", b.file)
             else:
+                rets_ = [i_ for i_, _t in b.terms("return")]
+                skip = q.reach(ve["Some"], blocked=set(j for j, _, _ in rr))
+                if any(r_ in skip for r_ in rets_):
+                    chk.bad("R12.1", "pop|program hit always runs", "a found program can be answered without evaluating it (a path from the hit to the return avoids run_raw): "
+                                                                     "its value then is not what the program computes under the current bindings", b.file)
+                else:
+                    chk.ok("R12.1", "pop|program hit always runs")
                 chk.ok("R12.1", "pop|program hit runs and returns")
             miss = q.reach(ve["None"])
             if not any(j in miss for j, _, _ in be):
